@@ -51,7 +51,7 @@ PROBES = [
     "reused_address_still_cached", "legit_cache_hit_possible", "eviction_ran",
     "process_pool_used", "lookalike_neighbours_in_batch",
     "second_fit_same_reactor", "entry_dict_edited_between_fits", "twin_reactor_other_worker_count", "nested_parallel", "crash_mid_fit",
-    "cluster_batched", "validate_parallel", "validate_tautomer_sensitive_pair", "validate_aromaticity_sensitive_pair", "dataframe_with_permuted_index", "crn_task_fails_inside_reactor", "crn_non_default_options", "crn_three_component_rule", "signature_not_equal_to_itself", "crn_step_with_more_than_1024_tasks", "validate_more_than_256_rows", "balance_parallel", "crn_parallel",
+    "cluster_batched", "validate_parallel", "validate_tautomer_sensitive_pair", "validate_aromaticity_sensitive_pair", "dataframe_with_permuted_index", "rule_pre_filter_on", "crn_task_fails_inside_reactor", "crn_non_default_options", "crn_three_component_rule", "signature_not_equal_to_itself", "crn_step_with_more_than_1024_tasks", "validate_more_than_256_rows", "balance_parallel", "crn_parallel",
 ]
 REAL = ["synkit.Synthesis.Reactor.batch_reactor (BatchReactor, _RuleApplier, _apply_rule_raw)",
         "synkit.Synthesis.Reactor.syn_reactor.SynReactor and everything beneath (matcher, ITS gluing, RDKit)",
@@ -219,7 +219,9 @@ def generate(seed: int, tier: str = "quick") -> Dict[str, Any]:
                 "dedupe": rng.random() < 0.7,
                 "strategy": rng.choice(["bt", "bt", "all", "comp"]),
                 "mode": rng.choice(["explicit", "explicit", "explicit", "plain", "implicit"]),
-                "as_dict": rng.random() < 0.25}
+                "as_dict": rng.random() < 0.25,
+                # the rule pre-filter only skips rules whose pattern is absent from the substrate: operational, like the cache
+                "pre_filter": rng.choice([None, None, None, "nx", "turbo", "sing"])}
 
     def gen_fit(slot: int) -> Dict[str, Any]:
         n_r = rng.randint(1, 4) if rng.random() < 0.8 else rng.randint(5, 8)
@@ -335,7 +337,9 @@ def _run(case: Dict[str, Any], sim: Sim, world: World) -> None:
         ent = [subs[i % len(subs)] for i in op["entries"]]
         data: List[Any] = [{"smi": e, "tag": k} for k, e in enumerate(ent)] if op["as_dict"] else list(ent)
         explicit_h, implicit_temp = MODES[op["mode"]]
-        br = BatchReactor(data, host_key="smi" if op["as_dict"] else None, react_engine="syn",
+        if op.get("pre_filter"):
+            sim.probe("rule_pre_filter_on")
+        br = BatchReactor(data, host_key="smi" if op["as_dict"] else None, react_engine="syn", pre_filter_engine=op.get("pre_filter"),
                           explicit_h=explicit_h, implicit_temp=implicit_temp, strategy=op["strategy"],
                           dedupe=op["dedupe"], entry_n_jobs=op["entry_jobs"], rule_n_jobs=op["rule_jobs"],
                           parallel_rules=op["parallel_rules"], allow_nested=op["allow_nested"],
@@ -346,7 +350,7 @@ def _run(case: Dict[str, Any], sim: Sim, world: World) -> None:
             # a twin that differs only in the number of entry workers: whatever the library does with entries that the
             # caller edits between fits, it must do the same for every worker count
             twin_data = [dict(d) for d in data]
-            twin = BatchReactor(twin_data, host_key="smi", react_engine="syn",
+            twin = BatchReactor(twin_data, host_key="smi", react_engine="syn", pre_filter_engine=op.get("pre_filter"),
                                 explicit_h=explicit_h, implicit_temp=implicit_temp, strategy=op["strategy"],
                                 dedupe=op["dedupe"], entry_n_jobs=(2 if op["entry_jobs"] == 1 else 1), rule_n_jobs=op["rule_jobs"],
                                 parallel_rules=op["parallel_rules"], allow_nested=op["allow_nested"],
